@@ -580,7 +580,27 @@ def relabelled(ctx, facts, fn, src_rule, dst_rule, only_what=None):
     ctx.instances[before:] = kept
 
 
+def rule_m11(ctx, facts):
+    """M11 = G1-G3 of C09: memory of the map is retired only through guards of the map's own collector -- every exported function uses its
+    &Guard only after the collector check.  A guard of another collector (any other flurry map has one) that reaches `replace_node`
+    retires the removed node and value into that collector, which frees them as soon as IT has no active guards, under the feet of the
+    readers pinned in the map's own collector."""
+    from . import rules_c09
+    before = len(ctx.instances)
+    floors_before = dict(ctx.floors)
+    texts_before = dict(ctx.rule_text)
+    rules_c09.run(ctx, facts)
+    ctx.floors = floors_before
+    ctx.rule_text = texts_before
+    for i in ctx.instances[before:]:
+        if i.rule in ("G1", "G2", "G3"):
+            i.rule = "M11"
+
+
 def run(ctx, facts):
+    ctx.rule("M11", "memory is retired only through guards of the map's own collector: every exported guard-taking function checks the guard "
+                    "before it uses it (rules G1-G3 of C09)", floor=30)
+    rule_m11(ctx, facts)
     ctx.rule("M9", "a tree bin retired whole does not also have its nodes' values retired one by one (rule O10 of C04): a value handed to the "
                    "collector twice is freed while the second retirement still refers to it", floor=1)
     from .rules_c04 import rule_o10
